@@ -32,10 +32,10 @@ PROP = "C11"
 MODULES = ["PdsVerif.Props.C11", "PdsVerif.Lemmas.ReadSignal"]
 MODEL_MODULES = ["PdsVerif.Model.ReadSignal", "PdsVerif.Generated.ReadSig"]
 REQUIRED = ["PdsVerif.C11." + n for n in """
-    regex_is_modelled tableMatch_iff inferKind_total no_suffix_ioerror_iff no_suffix_ioerror table_rspecifier sf_suffix
+    regex_is_modelled tableMatch_iff chainSuffixes_documented rules_shape inferKind_total no_suffix_ioerror_iff no_suffix_ioerror table_rspecifier sf_suffix
     suffix_maps_to_kind pipe_suffix wav_precedence_irrelevant bare_type_name lastSeg_mem_iff
     sfTypes_wellformed stream_needs_force_as kaldi_on_stream unknown_force_as force_as_reader force_as_reader_stream
-    wav_reader inferred_type_is_dispatchable default_key_arr0 default_key_hdf5 default_key_table kaldi_default_dtype
+    sf_type_reader wav_reader inferred_type_is_dispatchable default_key_arr0 default_key_hdf5 default_key_table kaldi_default_dtype
     h5_first_dataset h5_never_out_of_fuel h5_visit_order final_cast_generic final_cast_readers dtype_to_decoder
     dtype_is_final_cast sf_subtype_dtype wds_never_raises wds_none_iff wds_some wds_undecodable_key
     avail_message_complete""".split()]
@@ -376,7 +376,9 @@ def documented_kind(name, sft):
         return "kaldiTable"
     for t in sft:
         if name.endswith("." + t):
-            return "wav" if t == "wav" else "soundfile"  # force_as='wav' is served by scipy / wave
+            # docstring step 2 sends '.wav' to soundfile when libsndfile handles wav, the code to scipy / wave
+            # (force_as == "wav" is tested first); for the PCM files of this property both are right
+            return "wav_or_soundfile" if t == "wav" else "soundfile"
     if name in sft:
         return "bare"
     for suf, k in ((".wav", "wav"), (".hdf5", "hdf5"), (".npy", "npy"), (".npz", "npz"), (".pt", "torch"), (".sph", "sphere")):
@@ -385,6 +387,12 @@ def documented_kind(name, sft):
     if name.endswith("|"):
         return "kaldiInput"
     return "IOError"
+
+
+def family_ok(got, want):
+    if want == "wav_or_soundfile":
+        return got in ("wav", "soundfile")
+    return got == want
 
 
 class KaldiRecorder:
@@ -533,8 +541,8 @@ def names_phase(ctx, driver, root):
         if wraised:
             ctx.violation(dict(case, via="wds"), "returns", "raised " + wraised, ORACLES["wds"],
                           tags=dict(clause="wds_never_raises", where="name"))
-        want_w = {"kaldiTable": "none", "kaldiInput": "none", "IOError": "none", "wav": "wav", "bare": None}.get(doc, doc)
-        if want_w is not None and wfam != want_w and not wraised:
+        want_w = {"kaldiTable": "none", "kaldiInput": "none", "IOError": "none", "bare": None}.get(doc, doc)
+        if want_w is not None and not family_ok(wfam, want_w) and not wraised:
             ctx.violation(dict(case, via="wds"), want_w, dict(family=wfam, outcomes=wout),
                           ORACLES["suffix"] if want_w != "none" else ORACLES["wds"],
                           tags=dict(clause="suffix_wds" if want_w != "none" else "wds_none", documented=doc))
@@ -572,7 +580,7 @@ def names_phase(ctx, driver, root):
             if fam not in ("soundfile", "wav", "err:OSError"):
                 ctx.violation(case, "the type named / IOError", dict(family=fam, outcomes=outcomes), ORACLES["no_suffix"],
                               tags=dict(clause="bare_name"))
-        elif fam != doc:
+        elif not family_ok(fam, doc):
             ctx.violation(case, doc, dict(family=fam, outcomes=outcomes), ORACLES["suffix"],
                           tags=dict(clause="suffix", documented=doc, got=fam.split(":")[0]))
         lines.append("read 0 %s ~ ~ ~ %s" % (enc(name), extra_word(name)))
